@@ -34,7 +34,7 @@ ASSUMPTIONS = ["scheduling points = accesses to the loaded / loading tables, Thr
                "the sequential reference is the same library code run without deferred calls",
                "include graphs are acyclic; resources are file: URLs in the private scratch directory",
                "exhaustive up to the reported preemption bound only"]
-REQUIRED_MONITORS = ["transparent", "no-raise", "no-deadlock", "cache-files"]
+REQUIRED_MONITORS = ["transparent", "no-raise", "no-deadlock", "cache-files", "resolved-structure"]
 
 
 # ---------------------------------------------------------------------------------------------
@@ -44,11 +44,22 @@ def res_xml(name, includes, broken=False):
     if broken:
         return "<odML version=\"1.1\"><section><name>x</name></odML"
     parts = ['<?xml version="1.0" encoding="UTF-8"?>', '<odML version="1.1">', "<author>%s</author>" % name]
+    inner = ""
+    for i, inc_ in enumerate(includes):
+        if len(inc_) > 2 and inc_[2] == "inner":
+            # an include that sits on a sub-Section of <name>_main, i.e. inside what other resources include from here
+            # (no children of its own: what becomes of them when the holder is itself copied by an outer include is the
+            # business of C12, whose quantifier excludes nested references)
+            inner += ("<section><name>%s_in%d</name><type>holder</type><include>%s</include></section>" % (
+                name, i, inc_[0] + ("#" + inc_[1] if inc_[1] else "")))
     parts.append("<section><name>%s_main</name><type>%s_type</type><definition>def of %s</definition>"
                  "<property><name>%s_p</name><value>[1,2]</value><type>int</type></property>"
                  "<section><name>%s_sub</name><type>sub</type><property><name>deep</name><value>x</value><type>string</type>"
-                 "</property></section></section>" % ((name,) * 5))
-    for i, (url, path) in enumerate(includes):
+                 "</property></section>%s</section>" % ((name,) * 5 + (inner,)))
+    for i, inc_ in enumerate(includes):
+        if len(inc_) > 2:
+            continue
+        url, path = inc_[0], inc_[1]
         inc = url + ("#" + path if path else "")
         parts.append("<section><name>%s_inc%d</name><type>holder</type><include>%s</include>"
                      "<property><name>own</name><value>o</value><type>string</type></property></section>" % (name, i, inc))
@@ -60,11 +71,57 @@ GRAPHS = {
     "single": {"A": []},
     "chain": {"A": [("B", "/B_main")], "B": []},
     "diamond": {"A": [("B", "/B_main"), ("C", None)], "B": [("D", "/D_main/D_sub")], "C": [("D", "/D_main")], "D": []},
+    "nested": {"A": [("B", "/B_main")], "B": [("C", "/C_main", "inner")], "C": []},
+    "nested-whole": {"A": [("B", "/B_main")], "B": [("C", None, "inner"), ("C", "/C_main/C_sub", "inner")], "C": []},
     "missing-leaf": {"A": [("M", "/M_main")]},
     "unparsable-leaf": {"A": [("U", "/x")], "U": "broken"},
     "missing-root": {},
     "vanished-root": {"A": []},      # the resource is removed after the cache was filled
 }
+
+
+def expected_names(gname, n, _seen=()):
+    """Independent of the library: the Section / Property names of resource n after all its includes were resolved,
+    as nested dicts {section name: (set of property names, {sub-sections})}, derived from the graph table alone."""
+    incs = GRAPHS[gname].get(n)
+    if incs is None or incs == "broken" or n in _seen:
+        return None
+
+    def target(t, path):
+        sub = expected_names(gname, t, _seen + (n,))
+        if sub is None:
+            return None
+        steps = [x for x in (path or "/%s_main" % t).split("/") if x]
+        cur = (set(), sub)
+        for st in steps:
+            if st not in cur[1]:
+                return None
+            cur = cur[1][st]
+        return cur
+
+    def holder(inc_):
+        tgt = target(inc_[0], inc_[1])
+        if tgt is None:
+            return None
+        props, secs = set(tgt[0]) | ({"own"} if len(inc_) == 2 else set()), dict(tgt[1])
+        return (props, secs)
+    main_secs = {"%s_sub" % n: ({"deep"}, {})}
+    tops = {}
+    for i, inc_ in enumerate(incs):
+        h = holder(inc_)
+        if h is None:
+            return None
+        if len(inc_) > 2:
+            main_secs["%s_in%d" % (n, i)] = h
+        else:
+            tops["%s_inc%d" % (n, i)] = h
+    out = {"%s_main" % n: ({"%s_p" % n}, main_secs)}
+    out.update(tops)
+    return out
+
+
+def names_of_model(m):
+    return {c["name"]: ({p["name"] for p in c["properties"]}, names_of_model(c)) for c in m["sections"]}
 
 
 def build_graph(gname, sdir, tag):
@@ -77,7 +134,7 @@ def build_graph(gname, sdir, tag):
             if incs == "broken":
                 f.write(res_xml(n, [], broken=True))
             else:
-                f.write(res_xml(n, [(urls[t], p) for t, p in incs]))
+                f.write(res_xml(n, [(urls[i[0]],) + tuple(i[1:]) for i in incs]))
     return urls
 
 
@@ -87,7 +144,7 @@ def rewrite_graph(gname, urls):
             if incs == "broken":
                 f.write(res_xml(n, [], broken=True))
             else:
-                f.write(res_xml(n, [(urls[t], p) for t, p in incs]))
+                f.write(res_xml(n, [(urls[i[0]],) + tuple(i[1:]) for i in incs]))
 
 
 SCRIPTS = {
@@ -329,6 +386,19 @@ def judge(rec, scn, urls, ref, s, outcomes, objs, before, after, fs, decisions):
                 rec.violation("unfetchable-resource:%s-returned-a-document:%s" % (step[0], scn["cache"]),
                               "%s step %d: the resource cannot be fetched and the cache holds %s" % (
                                   sk, i, "nothing" if scn["cache"] == "empty" else "an outdated copy"), case)
+    if scn["graph"] in ("single", "chain", "nested", "nested-whole", "diamond") and len(outcomes) == len(script):
+        for i, (step, o) in enumerate(zip(script, outcomes)):
+            if step[0] not in ("load", "tload"):
+                continue
+            exp_names = expected_names(scn["graph"], step[1])
+            if exp_names is None:
+                continue
+            rec.monitor("resolved-structure")
+            if o[0] == "none":
+                rec.violation("loadable-resource:%s-returned-None" % step[0], "%s step %d (%s)" % (sk, i, step[1]), case)
+            elif o[0] == "doc" and names_of_model(o[1]) != exp_names:
+                rec.violation("loadable-resource:%s-not-fully-resolved" % step[0],
+                              "%s step %d: sections/properties %r, expected %r" % (sk, i, names_of_model(o[1]), exp_names), case)
     prev = {}
     if len(outcomes) == len(script):
         for i, (step, o) in enumerate(zip(script, outcomes)):
@@ -461,14 +531,14 @@ def _rank_of(s, i):
 
 def scenarios():
     out = []
-    for g in ("single", "chain", "diamond", "missing-leaf", "unparsable-leaf", "missing-root", "vanished-root"):
+    for g in ("single", "chain", "nested", "nested-whole", "diamond", "missing-leaf", "unparsable-leaf", "missing-root", "vanished-root"):
         for script in SCRIPTS:
             if g == "vanished-root":
                 if script in ("load-twice", "deferred+load", "template-load", "template-load-twice"):
                     for cache in ("stale", "warm-outdated"):
                         out.append({"graph": g, "script": script, "cache": cache})
                 continue
-            if "B" in [st[1] for st in SCRIPTS[script]] and g not in ("chain", "diamond"):
+            if "B" in [st[1] for st in SCRIPTS[script]] and g not in ("chain", "diamond", "nested", "nested-whole"):
                 continue
             if g == "missing-root" and script not in ("load", "deferred+load", "template-load", "repository", "load-twice",
                                                        "template-load-twice"):
